@@ -309,7 +309,7 @@ def _run_one(job):
     scratch = tempfile.mkdtemp(prefix="vsa_")
     try:
         shutil.copytree(os.path.join(repo_root, "bempp_cl"), os.path.join(scratch, "bempp_cl"), ignore=shutil.ignore_patterns("__pycache__", "*.npz", "*.npy", "*.msh"))
-        if kind == "seed":
+        if kind in ("seed", "eqpatch"):
             # a change seeded by a sub-agent: apply its patch.diff (old = path of the patch)
             pr = subprocess.run(["patch", "-p1", "-s", "-i", old], cwd=scratch, capture_output=True, text=True)
             if pr.returncode != 0:
@@ -351,6 +351,12 @@ def _seed_jobs():
         props = sorted(d.get("caught_by", {}))
         if os.path.exists(patch) and props:
             out.append(("seed", "seed:" + d.get("id", os.path.basename(os.path.dirname(meta))), "patch.diff", patch, "", 0, props))
+    # behaviour-preserving multi-site rewrites kept as patches: first line `# props: Cxx Cyy` names the checks that must stay silent
+    for patch in sorted(glob.glob(os.path.join(core.VERIF, "selftest", "equivalent_patches", "*.diff"))):
+        first = open(patch).readline()
+        props = first.split(":", 1)[1].split() if first.startswith("# props:") else []
+        if props:
+            out.append(("eqpatch", "eqpatch:" + os.path.basename(patch)[:-5], "patch.diff", patch, "", 0, props))
     return out
 
 
